@@ -13,4 +13,7 @@ rc=${PIPESTATUS[0]}
 echo "SEED-RESULT rc=$rc"
 git -C /repo worktree remove --force "$wt"
 rm -rf "$out" "/verif/.build/$id-$(printf %s "$wt" | sha1sum | cut -c1-8)"
+# scratch-tree builds fill the shared Go build cache (one CLI build each): prune entries older than
+# two hours when the disk runs low
+if [ "$(df --output=avail -BG / | tail -1 | tr -dc 0-9)" -lt 40 ]; then find /root/.cache/go-build -type f -mmin +120 -delete 2>/dev/null; fi
 exit $rc
